@@ -76,6 +76,33 @@ def c14_term(fam, t, st: Stats):
             if n_sub > 1 and (accepted1 or accepted2):
                 st.violation(case(t, {}, f"share={share}", "sub-expression used by itself", "rejected", [o1, o2[0]],
                                   f"the sub-expression {M.show(sub)} has {n_sub} variables but a bare number / Derivative was accepted"))
+    # expressions handed back by as_expression(): accepted in place of a one-variable expression exactly when they
+    # mention at most one variable (judged by their structure, i.e. by what they print)
+    if nv >= 1 and (M.size(t) <= 3 or fam == "SKEL" or any(c[0] == "const" and c[1] in (0, 1) for c in M.subterms(t))):
+        for v in vs:
+            for label, thunk in (("Partial(e, v).as_expression()", lambda: Partial(A.build(t), v).as_expression()),
+                                 ("Differential(e, compute_early=True).component(v).as_expression()",
+                                  lambda: Differential(A.build(t), compute_early=True).component(v).as_expression())):
+                o = A.construct(thunk)
+                st.inc("transitions")
+                if o[0] != "ok":
+                    continue
+                try:
+                    n_r = len(M.variables(A.reify(o[1])))
+                except A.ReifyError:
+                    continue
+                o1 = A.outcome(lambda: o[1].at(3))
+                o2 = A.construct(lambda: Derivative(o[1]))
+                st.inc("transitions", 2)
+                acc = o1[0] in ("val", "dom") and o2[0] == "ok"
+                if n_r <= 1 and not acc and not (o1[0] == "exc" and o1[1] == "OverflowError"):
+                    st.violation(case(t, {}, "tree", label, "accepted", [o1, o2[0]],
+                                      f"{label} = {o[1]!r} mentions {n_r} variable(s) but at(3) -> {o1}, Derivative(...) -> {o2[0]}",
+                                      {"variable": v}))
+                if n_r > 1 and (o1[0] in ("val", "dom") or o2[0] == "ok"):
+                    st.violation(case(t, {}, "tree", label, "rejected", [o1, o2[0]],
+                                      f"{label} = {o[1]!r} mentions {n_r} variables but a bare number / Derivative was accepted",
+                                      {"variable": v}))
     # one persistent object evaluated at every subset of its coordinates in turn
     persistent = A.build(t)
     for k in list(range(nv + 1)) + list(range(nv - 1, -1, -1)):
@@ -211,7 +238,7 @@ def run_c14(tier, seed):
 
     def source(pid, tier_):
         ts = F.enum_terms(tier_)
-        return [("ENUM", t) for t in ts]
+        return [("ENUM", t) for t in ts] + [("SKEL", t) for t in F.skel_terms(tier_)] + [("NAMES", t) for t in F.names_terms(tier_)]
 
     def worker(chunk):
         st = Stats()
